@@ -3,12 +3,14 @@
 package nebula
 
 import (
+	"bytes"
 	"fmt"
 	"net/netip"
 	"strings"
 	"testing"
 	"time"
 
+	"github.com/slackhq/nebula/header"
 	"pgregory.net/rapid"
 	"verifkit/vk"
 )
@@ -159,6 +161,24 @@ func TestC31_Converge(t *testing.T) {
 						continue
 					}
 					p := nsPickByClass(rt, hist, "lateDup")
+					if hd, ok := nsHeaderOf(p.Data); ok && hd.Type == header.Handshake && hd.MessageCounter == 1 {
+						// A first handshake message whose tunnel the receiver no longer holds is a replay of a
+						// dead session. IX cannot tell it from a fresh one when the receiver's current tunnel
+						// is one it initiated itself; C10 states exactly how far that protection goes. Here only
+						// duplicates of first messages whose tunnel is still held are in scope.
+						held := false
+						if x := s.nodeByUDP(p.To); x != nil {
+							for _, t := range x.allTunnels() {
+								if bytes.Equal(t.HandshakePacket[handshakePacketStage0], p.Data[header.Len:]) {
+									held = true
+								}
+							}
+						}
+						if !held {
+							vk.Label("C31", "late-duplicate-of-dead-session-skipped")
+							continue
+						}
+					}
 					h.note("late duplicate of %v", p)
 					nsDeliverUnauth(rt, h, p, p.From, p.To, "late-duplicate")
 				case "tun":
